@@ -2,7 +2,12 @@ use crate::histogram::Histogram;
 use crate::utils::vec_to_array;
 use std::collections::BTreeMap;
 use std::fmt::{Debug, Display, Formatter};
+#[cfg(not(transparencies_stretto_verif))]
 use std::sync::atomic::{AtomicU64, Ordering};
+#[cfg(transparencies_stretto_verif)]
+use std::sync::atomic::Ordering;
+#[cfg(transparencies_stretto_verif)]
+use stretto_sim_rt::sync::AtomicU64;
 use std::sync::Arc;
 
 const HISTOGRAM_BOUND_SIZE: usize = 16;
